@@ -85,7 +85,9 @@ def run_case(case):
         out.fail('C07:cells-differ:%s' % sig, 'cell %s.%s[%s] is %r in the original and %r after reload' % (t, c, r, va, vb),
                  [list(x) for x in kept[:6]])
         return True
-      if emitted and not all(is_cycle_error_pair(x[3], x[4]) for x in cells if [x[0], x[1], x[2]] in emitted) :
+      cyc = set((x[0], x[1], x[2]) for x in cells if is_cycle_error_pair(x[3], x[4]))
+      emitted = [e for e in emitted if tuple(e) not in cyc]
+      if emitted:
         out.fail('C07:calculate-emits:%s' % sig, 'Calculate after reload emitted %d changes, e.g. %r' % (len(emitted), emitted[:3]),
                  calc.stored[:4])
         return True
